@@ -60,7 +60,7 @@ def outcomes(F, fn, height_param, network, scenario, network_call="get_bitcoin_n
     rets = [i for i, b in enumerate(fn.blocks) if not b.get("cleanup") and b["term"]["k"] == "return"]
     out, visited = explore_under(fn, env_of, capture=tuple(rets))
     labels = set()
-    for (b, st) in explore_under.captured:
+    for (b, st) in list(explore_under.captured) + list(explore_under.returned):
         if isinstance(st.get(0), bool):
             labels.add(st[0])
     for bi in visited:
